@@ -402,6 +402,62 @@ fn t_box_realign<N: ArrayLength>(st: &mut Stats) {
     });
 }
 
+/// The boxed forms exist for arrays that do not fit a stack: map, zip and fold over a boxed
+/// 1 MiB array on a thread with a 256 KiB stack must visit the indices in order like every other
+/// form (an implementation that moves the array out of its box first cannot run at all there).
+fn boxed_on_small_stack(st: &mut Stats) {
+    if cfg!(miri) {
+        return;
+    }
+    type Big = generic_array::typenum::U131072; // x u64 = 1 MiB
+    st.check_case("C08", "boxed.small_stack", "u64", || "C08 boxed map/zip/fold over 1 MiB arrays on a 256 KiB stack".to_string(), true, || {
+        let h = std::thread::Builder::new()
+            .stack_size(256 * 1024)
+            .spawn(|| -> Result<(), String> {
+                let n = <Big as generic_array::typenum::Unsigned>::USIZE;
+                let a: Box<GA<u64, Big>> = <Box<GA<u64, Big>> as GenericSequence<u64>>::generate(|i| i as u64);
+                let mut expect = 0u64;
+                let folded = a.fold(0u64, |acc, x| {
+                    if x != expect {
+                        return u64::MAX;
+                    }
+                    expect += 1;
+                    acc.wrapping_mul(31).wrapping_add(x)
+                });
+                let want = (0..n as u64).fold(0u64, |acc, x| acc.wrapping_mul(31).wrapping_add(x));
+                if folded != want || expect != n as u64 {
+                    return Err(format!("OrderMismatch: boxed fold visited {expect} of {n} indices in order"));
+                }
+                let a: Box<GA<u64, Big>> = <Box<GA<u64, Big>> as GenericSequence<u64>>::generate(|i| i as u64);
+                let mut next = 0u64;
+                let m: Box<GA<u64, Big>> = a.map(|x| {
+                    let ok = x == next;
+                    next += 1;
+                    if ok { x * 2 } else { u64::MAX }
+                });
+                if next != n as u64 || m.iter().enumerate().any(|(i, x)| *x != 2 * i as u64) {
+                    return Err("OrderMismatch: boxed map".into());
+                }
+                let b: Box<GA<u64, Big>> = <Box<GA<u64, Big>> as GenericSequence<u64>>::generate(|i| 3 * i as u64);
+                let mut next = 0u64;
+                let z: Box<GA<u64, Big>> = m.zip(b, |l, r| {
+                    let ok = l == 2 * next && r == 3 * next;
+                    next += 1;
+                    if ok { l + r } else { u64::MAX }
+                });
+                if next != n as u64 || z.iter().enumerate().any(|(i, x)| *x != 5 * i as u64) {
+                    return Err("OrderMismatch: boxed zip".into());
+                }
+                Ok(())
+            })
+            .map_err(|e| format!("HarnessBug: cannot spawn: {e}"))?;
+        match h.join() {
+            Ok(r) => r,
+            Err(_) => Err("Panic: small-stack thread panicked".into()),
+        }
+    });
+}
+
 fn all_n<N: ArrayLength>(st: &mut Stats, args: &Args) {
     if args.part_on("generate") {
         t_generate::<Tok, N>(st);
@@ -441,6 +497,9 @@ macro_rules! lens {
 fn main() {
     let args = Args::parse();
     let mut st = Stats::new("order", &args);
+    if args.maxn >= 1024 && args.part_on("map") {
+        boxed_on_small_stack(&mut st);
+    }
     lens!(&mut st, args, [0, 1, 2, 3, 4, 5, 6, 7, 8]);
     lens!(&mut st, args, [9, 10, 11, 12, 13, 15, 16, 17, 24, 31, 32, 33, 63, 64, 65, 100, 127, 128, 129, 255, 256, 257, 1000, 1024]);
     if args.thorough() {
